@@ -302,7 +302,10 @@ fn hmac_verify(req: &Value) -> R<Value> {
 fn name_of(cn: &str) -> R<openssl::x509::X509Name> {
 	let mut nb = X509NameBuilder::new().map_err(e)?;
 	nb.append_entry_by_text("O", "verif harness").map_err(e)?;
-	nb.append_entry_by_text("CN", cn).map_err(e)?;
+	// a common name holds 64 characters (X.520 ub-common-name): longer names are only in the subjectAltName, as real CAs do
+	if cn.chars().count() <= 64 {
+		nb.append_entry_by_text("CN", cn).map_err(e)?;
+	}
 	Ok(nb.build())
 }
 
